@@ -83,6 +83,7 @@ class Analysis:
         self.blocks = self.mir["blocks"]
         self.locals = self.mir["locals"]
         self.tenv = TyEnv(body.get("predicates") or self._inherited_predicates())
+        self.tenv.db = facts_db
         self.models = models or {}
         self.block_in = {}
         self.calls = []
@@ -186,8 +187,11 @@ class Analysis:
                         break
                 if ok:
                     return v
-                # opaque parent: the field is an opaque function of the parent value
-                return self.init_value(("proj", v, path[i:]), ty, "proj")
+                # opaque parent: the field is an opaque function of the parent value (nested projections are flattened)
+                rest = path[i:]
+                if v[0] == "V" and len(v) == 3 and v[1] == "proj" and isinstance(v[2], tuple) and v[2][0] == "proj":
+                    v, rest = v[2][1], tuple(v[2][2]) + tuple(rest)
+                return self.init_value(("proj", v, rest), ty, "proj")
         ep = st.mem.get((base, ("__epoch__",)))
         if ep is not None:
             return self.init_value((key, ep), ty, "cell@")
